@@ -13,6 +13,19 @@ NA = {
 PENDING = "check not built yet (planned, DESIGN.md section 6)"
 
 CHECKS = {
+    "C15": dict(
+        category="proof",
+        text="Deductive (ghost 'listed == written' contract, SMT): Wrapc.write_header lists a file iff it writes it, under the "
+             "same name, in the C/Fortran directory, and returns that fact. Obligations decided on the AST of every writer: "
+             "each write_output_file call targets the directory designated for its kind; every C/Fortran file written is "
+             "listed under the same condition with join(directory, name); Python/Lua emitters never touch the lists; "
+             "main_with_args runs each emitter's wrap_library only under its wrap.<lang> flag, in the order C, Fortran, "
+             "Python, Lua, and writes --cfiles/--ffiles from the lists. One genuine defect found and fixed.",
+        design_ref="6/C15",
+        note="Not covered: byte-identity of C/Fortran files under wrap_python struct-constructor addition; per-declaration "
+             "flags inside the emitters; WrapFlags/PromoteWrap. Bounded monitor m_wrapsel in the thorough tier.",
+        technique="contract-based deductive verification (ghost sets, SMT) + structural obligations over the real AST",
+    ),
     "C16": dict(
         category="proof",
         text="Non-interference by a comment-only effect judgement over the real AST: every read of debug, debug_index, "
